@@ -216,6 +216,75 @@ pub fn run(tier: Tier) -> i32 {
             ctx.sample(json!({"input": inp.label, "len": n, "unfragmented": {"verdict": base.v.class(), "out_len": base.out.0.len(), "consumed": base.consumed}, "fragmented_runs": local}));
         }
     });
+    // ---------------------------------------------------------------- adversarially trained symbols: every bit of one match is
+    // improbable (is_match, is_rep, length tree, slot tree, align tree), so that a single symbol needs 13+ input bytes;
+    // all fragmentations of the region around those symbols (fast paths that assume "n bytes are enough" live there)
+    {
+        let reps = tier.pick(110usize, 180usize);
+        let (prog, first) = corpus::adversarial_program(reps);
+        let t1 = Instant::now();
+        let mut jobs: Vec<(String, Fmt, Opts, Vec<u8>, usize, usize)> = Vec::new();
+        for (marker, sized) in [(true, false), (false, true)] {
+            let it = corpus::Item { name: format!("adversarial-{}", reps), lc: 0, lp: 0, pb: 0, dict: 1 << 20, prog: prog.clone(), marker, sized };
+            for k in [corpus::OptKind::Header, corpus::OptKind::ProvidedSome] {
+                if let Some(b) = it.build(k) {
+                    let lo = b.table[first - 1].0.saturating_sub(6);
+                    jobs.push((format!("lzma {} [{:?}] marker={} (longest symbol {} input bytes)", it.name, k, marker, b.max_symbol_bytes), Fmt::Lzma, b.opts, b.bytes.clone(), lo, b.bytes.len()));
+                }
+            }
+        }
+        // the same payload as an LZMA2 chunk after an uncompressed chunk (raw payload of the sized variant)
+        {
+            let cs = vec![Chunk::C { class: 3, props: (0, 0, 0), prog: prog.clone() }];
+            let w = lzma2::write(&cs);
+            if w.ill.is_none() {
+                let e = crate::refmodel::enc::encode(0, 0, 0, u64::MAX, &prog);
+                let lo = (w.layout[0].body_off + e.table[first - 1].0).saturating_sub(6);
+                jobs.push(("lzma2 adversarial chunk".into(), Fmt::Lzma2, Opts::default(), w.bytes.clone(), lo, w.bytes.len()));
+            }
+        }
+        let total = std::sync::atomic::AtomicU64::new(0);
+        par_for(jobs.len() as u64, |i| {
+            let (label, fmt, opts, bytes, lo, n) = &jobs[i as usize];
+            let hi = (*lo + tier.pick(44usize, 60usize)).min(*n);
+            let mk = |rd: Rd| Case::Dec { fmt: *fmt, opts: *opts, input: Hex(bytes.clone()), rd, sk: Sk::default() };
+            let base = run_case(&mk(Rd::default()));
+            let mut rds: Vec<Rd> = Vec::new();
+            for a in *lo..hi {
+                rds.push(Rd { cuts: vec![a], ..Rd::default() });
+                for b in (a + 1)..hi {
+                    rds.push(Rd { cuts: vec![a, b], ..Rd::default() });
+                    if tier == Tier::Thorough && b - a <= 6 {
+                        for c in (b + 1)..(b + 7).min(hi) {
+                            rds.push(Rd { cuts: vec![a, b, c], ..Rd::default() });
+                        }
+                    }
+                }
+            }
+            for p in 1..=40usize {
+                rds.push(Rd { period: p, ..Rd::default() });
+            }
+            for c in 1..=64usize {
+                rds.push(Rd { bufreader: c, ..Rd::default() });
+            }
+            let mut local = 0u64;
+            for rd in rds {
+                let case = mk(rd);
+                let o = run_case(&case);
+                local += 1;
+                let same = o.v.class() == base.v.class() && o.out == base.out && (!base.v.is_ok() || o.consumed == base.consumed);
+                if !same || !base.v.is_ok() {
+                    ctx.violation(&case, &format!("{}: Ok and the same as the unfragmented run: verdict {} output {} bytes, {} bytes consumed", label, base.v.class(), base.out.0.len(), base.consumed), &o, None);
+                    break;
+                }
+            }
+            total.fetch_add(local, Ordering::Relaxed);
+            ctx.eval(local);
+            ctx.nontriv(local);
+            runs.fetch_add(local, Ordering::Relaxed);
+        });
+        ctx.scope_done("adversarial-symbol-region", total.load(Ordering::Relaxed), t1, &format!("{} streams; all 1- and 2-cut sets inside the ~44 bytes that hold the expensive symbols, periods 1..40, BufReader 1..64", jobs.len()));
+    }
     ctx.set_extra("bound_completed", json!({"max_cuts": kmax, "all_cut_sets_up_to_len": full_n}));
     ctx.set_extra("inputs", json!(ins.len()));
     ctx.scope_done("fragmentations", runs.load(Ordering::Relaxed), t0, &format!("{} inputs", ins.len()));
